@@ -9,7 +9,7 @@ for d in sorted(glob.glob(os.path.join(HERE, "seeded", "C*"))):
 out = ["# Independently seeded property-breaking changes", "",
        "Each directory: `patch.diff` (apply with `git -C /repo apply`, undo with `git -C /repo checkout -- .`; or use "
        "`tools/try_patch.sh`), `demo.py <repo root>` (exit 1 with the change, 0 without), `notes.md` (the author's notes), `meta.json`.",
-       "Round 1 directories are `Cxx-a`, `Cxx-b`; round 2 `Cxx-a2`, `Cxx-b2`; round 3 `Cxx-a3`, `Cxx-b3`. The 'caught' column says whether the current checks report it; `meta.json` `detected_on_first_run` says whether they did before the strengthening that followed that round.", "",
+       "Round 1 directories are `Cxx-a`, `Cxx-b`; round 2 `Cxx-a2`, `Cxx-b2`; round 3 `Cxx-a3`, `Cxx-b3`; round 4 `Cxx-a4`, `Cxx-b4`. The 'caught' column says whether the current checks report it; `meta.json` `detected_on_first_run` says whether they did before the strengthening that followed that round.", "",
        "| change | caught | needs, in order to manifest | detected by | applies to |", "|---|---|---|---|---|"]
 for r in rows:
     out.append("| " + " | ".join(str(x).replace("|", "/")[:420] for x in (r[0], r[2], r[3], r[4], r[5])) + " |")
